@@ -148,7 +148,7 @@ func init() {
 				}
 			},
 			Rule: "package-level defaults (SupportNegativeIndices on/off set through the package variable) through Apply and ApplyIndent on two array documents, depth 2: reference result, and ApplyIndent succeeds exactly when Apply does"}
-		return []*seqProp{p, mini, defs, scalePhase(p)}
+		return []*seqProp{p, mini, microDeep(p, `{"a":[1]}`, 4), defs, scalePhase(p)}
 	}, 150*time.Second, 25*time.Minute)
 }
 
@@ -188,6 +188,26 @@ func miniDeep(p *seqProp, doc string) *seqProp {
 	m.Alpha[2] = &AlphaCfg{Values: v1n, ReplValues: v1n, Kinds: kinds("test", "remove", "copy", "move"), MaxFroms: 2, NoRootAdd: nra}
 	m.Rule = "DEPTH 3 on one tiny document: {add, replace, remove} first, {add, replace, remove, copy} second, {test, remove, copy, move} third - incl. probes for stale state (the starting document's values and locations)"
 	return m
+}
+
+// microDeep: DEPTH 4 (thorough 5) on one micro document with one value per level - state that survives
+// two intermediate successful steps.
+func microDeep(p *seqProp, doc string, depth int) *seqProp {
+	d := *p
+	d.Docs = []string{doc}
+	d.Depth = depth
+	d.Opts = p.Opts[:1]
+	nra := len(p.Alpha) > 0 && p.Alpha[0].NoRootAdd
+	lv := func(vals []*rj.Value, ks ...string) *AlphaCfg {
+		return &AlphaCfg{Values: vals, ReplValues: v1n, Kinds: kinds(ks...), MaxFroms: 2, NoRootAdd: nra, NoRootPtr: true}
+	}
+	d.Alpha = []*AlphaCfg{lv(v2, "add", "replace", "remove"), lv(v1n, "add", "move"), lv(v1n, "copy", "remove")}
+	for i := 3; i < depth-1; i++ {
+		d.Alpha = append(d.Alpha, lv(v1n, "add", "remove"))
+	}
+	d.Alpha = append(d.Alpha, lv(v1n, "test", "remove", "copy", "move", "add"))
+	d.Rule = fmt.Sprintf("DEPTH %d on one micro document, first option set: {add,replace,remove} ; {add,move} ; {copy,remove} ; ({add,remove} ;) {test,remove,copy,move,add}, values 1/null - incl. probes for stale state", depth)
+	return &d
 }
 
 // thirdLevel is the reduced alphabet used at depth >= 3.
@@ -512,6 +532,8 @@ func init() {
 		scalePatches := []*rj.Value{manyMembers(16, `1`), manyMembers(17, `1`), manyMembers(40, `{"q":null,"r":1}`), w40,
 			rj.NewObj(rj.Member{Name: "k01", V: manyMembers(17, `null`)}), rj.NewObj(rj.Member{Name: "in", V: manyMembers(33, `{"z":null}`)})}
 		runMergeEdges(ctx, "C02", false, []*rj.Value{w40, rj.NewObj(rj.Member{Name: "in", V: w40}), rj.MustParse(`{"k01":{"x":1,"n":null}}`)}, scalePatches, mergeCfg{})
+		so := scaleObjects()
+		runMergeEdges(ctx, "C02", false, so, so, mergeCfg{})
 		// the shortest objects that hold a null member, and names with DEL / control characters
 		tiny := parseAll([]string{`{"":null}`, `{"a":{"":null}}`, `{"a":{"":null,"b":1}}`, `{"":{"":null}}`, "{\"a\u007fb\":1,\"c\":{\"\u007f\":null}}", "{\"\u007f\":{\"\\u007f\":2}}"})
 		runMergeEdges(ctx, "C02", false, append(tiny, parseAll([]string{`{}`, `{"a":1}`, `{"":{"x":1}}`, `1`})...), tiny, mergeCfg{variants: true})
@@ -556,6 +578,8 @@ func init() {
 		runCreatePairs(ctx, "C03", false, arrRoots, arrRoots)
 		scaleObjs := scaleObjects()
 		runCreatePairs(ctx, "C03", false, scaleObjs, scaleObjs)
+		nb := neighbourObjects()
+		runCreatePairs(ctx, "C03", false, nb, nb)
 	}, false)
 	registerMerge("C06", func(ctx *core.Ctx, tier string) {
 		ctx.Rep.Rule = "Equal(a,b) vs reference structural equality (numbers by literal; numerically-equal-but-differently-spelled pairs are DontCare) for all ordered pairs of V3 (quick) / V4 (thorough), each value also in reordered, whitespace-padded and \\u-escaped spellings; every JSON string escape (solidus, quote, backslash, b f n r t, uXXXX in both cases, surrogate pairs) in all spellings at the root, in arrays, as member value and as member name; " +
@@ -567,6 +591,7 @@ func init() {
 		vs = append(vs, parseAll([]string{`[{"a":1,"b":2}]`, `[{"a":1,"b":{"a":2,"b":null}},1]`, `{"a":[{"b":1,"a":{"b":2,"a":3}}]}`, `[[{"a":1,"b":2}],{"a":1,"b":2}]`})...)
 		runEqualPairs(ctx, "C06", false, vs, true)
 		runEqualPairs(ctx, "C06", false, scaleObjects(), true)
+		runEqualPairs(ctx, "C06", false, neighbourObjects(), true)
 		runEqualEscapes(ctx, "C06")
 		runEqualMalformed(ctx, "C06", tier)
 	}, false)
@@ -589,7 +614,9 @@ func init() {
 		lookDocs := parseAll([]string{`{}`, `{"a/b":1,"a~1b":2,"m~n":3,"m~0n":4}`, `{"a":{"a/b":1,"a~1b":2,"m~n":3,"m~0n":4}}`, `{"a~1b":{"x":1}}`})
 		runCompose(ctx, "C07", false, lookDocs, lookN, lookN)
 		so := scaleObjects()
-		runCompose(ctx, "C07", false, so[:3], so, so)
+		narrow := parseAll([]string{`{}`, `{"m000":9,"z":1}`, `{"a":1,"b":{"c":2},"m001":{"y":2},"z":null}`, `{"k07":1,"k20":{"x":1},"m002":5,"m040":6,"z":[1]}`})
+		runCompose(ctx, "C07", false, narrow, so, append(narrow, so[:6]...))
+		runCompose(ctx, "C07", false, narrow, narrow, so)
 	}, false)
 }
 
@@ -658,6 +685,9 @@ func init() {
 			so := noFloatSpelling(scaleObjects())
 			runMergeEdges(ctx, "C19", true, so, so, mergeCfg{})
 			runCreatePairs(ctx, "C19", true, so, so)
+			nb := neighbourObjects()
+			runCreatePairs(ctx, "C19", true, nb, nb)
+			runEqualPairs(ctx, "C19", true, nb, true)
 			runEqualPairs(ctx, "C19", true, so, true)
 		})
 	}, true)
